@@ -63,6 +63,8 @@ type Prog struct {
 	boundRecv   map[*ssa.Parameter]ssa.Value
 	boundMethod map[*ssa.Function]*ssa.Function // synthetic $bound wrapper -> method
 	// implOf: thin forwarding wrapper (func hasCycle(g, a, b) bool { return g.hasCycle(a, b) }) -> the function it forwards to
+	defaultOf map[*ssa.Function]*ssa.Function
+	roleNames map[string]bool
 	implOf map[*ssa.Function]*ssa.Function
 }
 
@@ -182,6 +184,16 @@ func loadProgramRaw(repo string, cfg BuildConfig) (*Prog, error) {
 			p.implOf[f] = impl
 		}
 	}
+	// defaulting wrappers: the old name kept as `return g(params..., <constants>)` after the implementation gained
+	// a parameter; only the role lookup (ErgoFn) follows these, call sites keep their own callee
+	p.defaultOf = map[*ssa.Function]*ssa.Function{}
+	for _, f := range p.Fns {
+		if p.implOf[f] == nil {
+			if impl := defaultingWrapperTarget(p, f); impl != nil {
+				p.defaultOf[f] = impl
+			}
+		}
+	}
 	for w, impl := range p.implOf {
 		// calls through the wrapper count as calls of the implementation
 		for _, cs := range p.callers[w] {
@@ -271,6 +283,13 @@ func (p *Prog) ErgoFn(ident string) *ssa.Function {
 	if f != nil {
 		if impl := p.implOf[f]; impl != nil {
 			// the name is a thin forwarding wrapper: the role is played by what it forwards to (keys keep the role name)
+			if _, named := p.roleOf[impl]; !named {
+				p.roleOf[impl] = ident
+			}
+			return impl
+		}
+		if impl := p.defaultOf[f]; impl != nil && impl.Pkg == p.Ergo && !p.roleNames[impl.Name()] {
+			// (an implementation that is a recorded role of its own - runPrune under RunPrunePlan - is a different role)
 			if _, named := p.roleOf[impl]; !named {
 				p.roleOf[impl] = ident
 			}
@@ -368,15 +387,100 @@ func thinWrapperTarget(p *Prog, f *ssa.Function) *ssa.Function {
 	if g == nil || g == f || !p.InModule(g) || g.Blocks == nil || len(call.Call.Args) != len(f.Params) {
 		return nil
 	}
+	// each parameter is handed on exactly once; a function turned into a method may move its receiver to the front, but a
+	// wrapper that exchanges two parameters of the same type (hasCycle(g, to, from)) is not an alias
 	used := map[*ssa.Parameter]bool{}
-	for _, a := range call.Call.Args {
+	var moved []*ssa.Parameter
+	for i, a := range call.Call.Args {
 		prm, ok := a.(*ssa.Parameter)
 		if !ok || prm.Parent() != f || used[prm] {
 			return nil
 		}
 		used[prm] = true
+		if prm != f.Params[i] {
+			moved = append(moved, prm)
+		}
+	}
+	for i := range moved {
+		for j := i + 1; j < len(moved); j++ {
+			if types.Identical(moved[i].Type(), moved[j].Type()) {
+				return nil
+			}
+		}
 	}
 	// results handed back unchanged
+	ret, ok := f.Blocks[0].Instrs[len(f.Blocks[0].Instrs)-1].(*ssa.Return)
+	if !ok {
+		return nil
+	}
+	for i, r := range ret.Results {
+		if r == ssa.Value(call) {
+			continue
+		}
+		if ex, ok := r.(*ssa.Extract); ok && ex.Tuple == ssa.Value(call) && ex.Index == i {
+			continue
+		}
+		return nil
+	}
+	return g
+}
+
+// defaultingWrapperTarget: f's whole body is `return g(a1..an)` where its own parameters appear in their own order, each
+// once, and every other argument is a constant or a zero value: f is g with defaults filled in.
+func defaultingWrapperTarget(p *Prog, f *ssa.Function) *ssa.Function {
+	if f.Parent() != nil || len(f.Blocks) != 1 {
+		return nil
+	}
+	var call *ssa.Call
+	for _, in := range f.Blocks[0].Instrs {
+		switch x := in.(type) {
+		case *ssa.Call:
+			if call != nil {
+				return nil
+			}
+			call = x
+		case *ssa.Return, *ssa.DebugRef, *ssa.Extract:
+		case *ssa.Alloc, *ssa.UnOp:
+			// the zero value of a struct type (time.Time{}) is a load of a fresh local
+		default:
+			return nil
+		}
+	}
+	if call == nil {
+		return nil
+	}
+	g := call.Call.StaticCallee()
+	if g == nil || g == f || !p.InModule(g) || g.Blocks == nil || g.Parent() != nil || len(call.Call.Args) <= len(f.Params) {
+		return nil
+	}
+	next := 0
+	for _, a := range call.Call.Args {
+		switch x := a.(type) {
+		case *ssa.Parameter:
+			if next >= len(f.Params) || x != f.Params[next] {
+				return nil
+			}
+			next++
+		case *ssa.Const:
+		case *ssa.UnOp:
+			al, ok := x.X.(*ssa.Alloc)
+			if !ok || x.Op != token.MUL {
+				return nil
+			}
+			for _, r := range *al.Referrers() {
+				if r != ssa.Instruction(x) {
+					if _, dbg := r.(*ssa.DebugRef); !dbg {
+						return nil
+					}
+				}
+			}
+		default:
+			return nil
+		}
+	}
+	if next != len(f.Params) {
+		return nil
+	}
 	ret, ok := f.Blocks[0].Instrs[len(f.Blocks[0].Instrs)-1].(*ssa.Return)
 	if !ok {
 		return nil
